@@ -5,7 +5,7 @@ MAXW = (1 << 64) - 1
 
 class Case:
     def __init__(self, cid, kind, vals=None, start=0, stop=0, script=None, hint="inexact", adapt="none",
-                 threads=None, owner="drop", sched=None, frozen=None, iters=1, mode="release", clonepanic=None, droppanic=None, zst=False, tags=None, pod=False, spare=0, inpanic=None):
+                 threads=None, owner="drop", sched=None, frozen=None, iters=1, mode="release", clonepanic=None, droppanic=None, zst=False, tags=None, pod=False, spare=0, inpanic=None, clonepoint=False):
         self.id = cid
         self.kind = kind            # slice vecref arrref vec array range iter iterref
         self.vals = list(vals or [])
@@ -24,6 +24,7 @@ class Case:
         self.zst = zst                  # zero-sized elements (slice / vec / array; payloads all 0)
         self.pod = pod                  # `Copy` elements without drop glue (vec / array): no destruction is observable
         self.spare = spare              # unused capacity of the consumed vector (vec)
+        self.clonepoint = clonepoint    # `Clone::clone` of an element is a scheduling point (impl-only cases)
         self.inpanic = list(inpanic or [])   # threads whose ops run inside a destructor during an unrelated unwinding
         self.tags = set(tags or [])
 
@@ -116,6 +117,8 @@ class Case:
             L.append("spare %d" % self.spare)
         if self.inpanic:
             L.append("inpanic %s" % " ".join(map(str, self.inpanic)))
+        if self.clonepoint:
+            L.append("clonepoint")
         if self.adapt != "none":
             L.append("adapt %s" % self.adapt)
         L.append("mode %s" % self.mode)
@@ -184,6 +187,8 @@ def parse_cases(text):
             cur.spare = int(toks[1])
         elif toks[0] == "inpanic":
             cur.inpanic = [int(x) for x in toks[1:]]
+        elif toks[0] == "clonepoint":
+            cur.clonepoint = True
         elif toks[0] == "thread":
             head, _, prog = line.partition(":")
             t = int(head.split()[1])
